@@ -6,7 +6,7 @@ From V.c07 Require Import C07Model.
 From V.c06 Require Import C06Model C06InitModel C06StructProofs C06CencProofs C06CbcsProofs C06SampleProofs C06InitProofs C06FragModel C06FragProofs.
 From V.c06 Require Import C06SencModel C06SencProofs C06SencAuxProofs C06TrexModel C06TrexProofs C06EntryModel C06EntryProofs.
 From V.c06 Require Import C06SencRepairProofs C06FileCbcsProofs C06TimingModel C06TimingProofs C06SinfModel C06SinfProofs.
-From V.c06 Require Import C06MultiModel C06MultiProofs C06FixedModel C06FixedProofs.
+From V.c06 Require Import C06MultiModel C06MultiProofs C06FixedModel C06FixedProofs C06TrafTimingModel C06TrafTimingProofs.
 
 (* cenc: crypting twice with the same key, IV and sub-sample map restores the sample — for EVERY block function
    E, every map (empty = whole sample, partial last block, clear runs > 65535, even overlapping or wrapping
@@ -523,6 +523,24 @@ Theorem C06_sizes_agree : forall tfhd trex tr base,
 Proof. exact sizes_agree. Qed.
 Print Assumptions C06_sizes_agree.
 
+(* the same for a traf with ANY number of truns (C06TrafTimingModel.traf_meta: Fragment.GetFullSamples walks the truns
+   and advances the base time by what AddSampleDefaultValues returns): every trun goes through the encrypt side
+   (defaults of ANY trex, Encode, decode) and the decrypt side (defaults of ANY trex, Encode, decode) with any data
+   offsets; count, sizes, durations, flags, composition offsets and DECODE TIMES of the whole traf - the decode time of
+   a later trun depends on the durations of all earlier ones - are those of the clear traf *)
+Theorem C06_timing_roundtrip_multi : forall tfhd trex_e (l : list (trun_t * (N * N))),
+  (forall tr o1 o2, In (tr, (o1, o2)) l ->
+     as_decoded tr = true /\ o1 < 4294967296 /\ o2 < 4294967296 /\ (tr_doff tr = true -> o1 <> 0 /\ o2 <> 0)) ->
+  exists l12 : list (trun_t * trun_t),
+    Forall2 (fun x p => trun_after_encrypt tfhd trex_e (fst x) (fst (snd x)) = Ok (fst p) /\
+                        (forall trex_d, trun_after_encrypt tfhd trex_d (fst p) (snd (snd x)) = Ok (snd p)) /\
+                        tr_samples (fst p) = tr_samples (fst x) /\ tr_samples (snd p) = tr_samples (fst x)) l l12 /\
+    forall trex_d base,
+      traf_meta tfhd trex_d (map fst l12) base = traf_meta tfhd trex_d (map fst l) base /\
+      traf_meta tfhd trex_d (map snd l12) base = traf_meta tfhd trex_d (map fst l) base.
+Proof. exact timing_roundtrip_multi. Qed.
+Print Assumptions C06_timing_roundtrip_multi.
+
 (* ---------------------------------------------------------------- several sample entries, several tracks *)
 (* a moov in which EVERY sample entry of EVERY track has been protected the way InitProtect protects its single
    entry (type -> encv / enca, sinf(frma = original type, schm, schi(tenc)) appended after the entry's own
@@ -861,3 +879,16 @@ Example ex_entry_typed :
   unprotect_entry_typed SVisual (protect_entry_bytes_at cc_encv cc_avc1 dirty before after cc_cbcs t)
   = Ok (entry_bytes cc_avc1 fx (before ++ after), mkSD (Some cc_avc1) (Some cc_cbcs) (Some (Some t))).
 Proof. vm_compute. repeat split; try reflexivity; discriminate. Qed.
+
+(* the hypotheses of C06_timing_roundtrip_multi are satisfiable: two truns with different signalling; the decode times
+   of the second trun continue after the (trex-resolved) durations of the first *)
+Example ex_timing_multi :
+  let tr1 := mkTrun false false false true true true 121 33554432 [mkTS 33554432 0 0 0; mkTS 0 0 0 500] in
+  let tr2 := mkTrun true true true false false true 155 0 [mkTS 16842752 1000 9 0] in
+  let tfhd := mkTfhd None (Some 17) None in
+  let trex := Some (mkTrex 1024 1 16842752) in
+  as_decoded tr1 = true /\ as_decoded tr2 = true /\
+  traf_meta tfhd trex [tr1; tr2] 90000 =
+    [(mkTS 33554432 1024 17 0, 90000); (mkTS 16842752 1024 17 500, 91024); (mkTS 16842752 1000 9 0, 92048)] /\
+  traf_meta tfhd None [tr1; tr2] 90000 <> traf_meta tfhd trex [tr1; tr2] 90000.
+Proof. vm_compute. repeat split; try reflexivity. discriminate. Qed.
